@@ -150,3 +150,23 @@ MUTANTS += [
     {"name": "c07-redis-topic-prefix-without-colon", "checks": ["C07", "C11"],
      "edits": [(RC, '        new_topics = tuple(x + ":" for x in topics)', '        new_topics = tuple(x for x in topics)')]},
 ]
+CV = "repid/converter.py"
+MUTANTS += [
+    {"name": "c08-basic-missing-required-passes-empty", "checks": ["C08"],
+     "edits": [(CV, "            if default is inspect.Parameter.empty and name not in loaded:\n                raise TypeError", "            if False:\n                raise TypeError")]},
+    {"name": "c08-basic-extras-into-named-kwargs", "checks": ["C08"],
+     "edits": [(CV, "        if self.all_kwargs:\n            kwargs.update(loaded)", "        if True:\n            kwargs.update(loaded)")]},
+    {"name": "c08-pydantic-posonly-order-reversed", "checks": ["C08"],
+     "edits": [(CV, "            return ([loaded.pop(arg) for arg in self.args], loaded)\n\n        return ([], loaded)\n\n    def convert_outputs(self, data: FnR) -> str:\n        if not self.validate_output:  # there is not type to validate\n            return JSON_ENCODER.encode(data)  # fallback to JSON encoding\n        if self.output_is_model:\n            if isinstance(data, BaseModel):\n                return data.model_dump_json()",
+                    "            return ([loaded.pop(arg) for arg in reversed(self.args)], loaded)\n\n        return ([], loaded)\n\n    def convert_outputs(self, data: FnR) -> str:\n        if not self.validate_output:  # there is not type to validate\n            return JSON_ENCODER.encode(data)  # fallback to JSON encoding\n        if self.output_is_model:\n            if isinstance(data, BaseModel):\n                return data.model_dump_json()")]},
+    {"name": "c08-pydantic-empty-payload-raises", "checks": ["C08", "C02"],
+     "edits": [(CV, 'model_validate_json(data or "{}")', "model_validate_json(data)")]},
+    {"name": "c08-basic-default-ignored-uses-none", "checks": ["C08"],
+     "edits": [(CV, "        kwargs = {name: loaded.pop(name, self.kwargs[name]) for name in self.kwargs}", "        kwargs = {name: loaded.pop(name, None) for name in self.kwargs}")]},
+    {"name": "c08-basic-varargs-kw-collision", "checks": ["C08"],
+     "edits": [(CV, "            args.extend(kwargs.pop(name) for name in self.positional_or_keyword)\n", "")]},
+    {"name": "c08-pydantic-return-annotation-nonclass", "checks": ["C08"],
+     "edits": [(CV, "            self.output_is_model = inspect.isclass(self.output_type) and issubclass(", "            self.output_is_model = issubclass(")]},
+    {"name": "c08-default-converter-is-basic", "checks": ["C08"],
+     "edits": [(CV, '        if is_installed("pydantic", ">=2.0.0,<3.0.0"):\n            return PydanticConverter(fn)', '        if is_installed("pydantic", ">=3.0.0,<4.0.0"):\n            return PydanticConverter(fn)')]},
+]
